@@ -28,6 +28,7 @@ type FuncDecl struct {
 	Err    bool
 	Recv   *Ty    // struct method: named receiver type
 	Conv   string // name of the converter interface the role-2 parameter has
+	NoAccess bool // unexported and declared outside the output package of its converter: not usable
 }
 
 type CtxParam struct {
@@ -73,8 +74,8 @@ func (p *Program) coqFraws() string {
 		if f.Recv != nil {
 			recv = "Some (" + p.coqTy(f.Recv) + ")"
 		}
-		out = append(out, fmt.Sprintf("{| fr_name := %s; fr_pkg := %d; fr_accessible := true; fr_generic := false; fr_params := %s; fr_results := %s; fr_recv := %s |}",
-			runes(f.Name), f.Pkg, coqList(ps), coqList(res), recv))
+		out = append(out, fmt.Sprintf("{| fr_name := %s; fr_pkg := %d; fr_accessible := %s; fr_generic := false; fr_params := %s; fr_results := %s; fr_recv := %s |}",
+			runes(f.Name), f.Pkg, coqBool(!f.NoAccess), coqList(ps), coqList(res), recv))
 	}
 	return coqList(out)
 }
